@@ -190,10 +190,12 @@ pub fn check_c14(buf: &[u8], align_sel: u8, elf64: bool, little: bool) -> Result
     #[cfg(kani)] const NOTES: usize = 1;      // the search looks at the first note only (cost); the replay walks two
     #[cfg(not(kani))] const NOTES: usize = 2;
     use elf::note::{Note, NoteIterator};
-    let align: usize = [0usize, 1, 2, 4, 8, 16, 3, 4][(align_sel % 8) as usize];
+    #[cfg(kani)] let align: usize = [0usize, 1, 2, 4, 8, 16, 3, 4][(align_sel % 8) as usize];
+    // natively also absurd alignments (a caller-supplied value / sh_addralign of a crafted file): padding must not overflow
+    #[cfg(not(kani))] let align: usize = [0usize, 1, 2, 4, 8, 16, 3, 4, usize::MAX, usize::MAX - 3, 1 << 63, usize::MAX - 15][(align_sel % 12) as usize];
     let class = if elf64 { Class::ELF64 } else { Class::ELF32 };
     let e = if little { AnyEndian::Little } else { AnyEndian::Big };
-    fn pad(x: u64, a: u64) -> u64 { if x % a > 0 { x + (a - x % a) } else { x } }
+    fn pad(x: u64, a: u64) -> Option<u64> { if x % a > 0 { x.checked_add(a - x % a) } else { Some(x) } }      // None: the padded offset is not representable, no record fits
     // -> (next offset, n_type, name range, desc range)
     fn ref_note(little: bool, a: usize, d: &[u8], off: u64) -> Option<(u64, u64, (usize, usize), (usize, usize))> {
         let len = d.len() as u64;
@@ -201,8 +203,8 @@ pub fn check_c14(buf: &[u8], align_sel: u8, elf64: bool, little: bool) -> Result
         let o = off as usize;
         let namesz = uval(little, &d[o..o + 4]); let descsz = uval(little, &d[o + 4..o + 8]); let ty = uval(little, &d[o + 8..o + 12]);
         let name_end = off + 12 + namesz; if name_end > len { return None; }
-        let ds = pad(name_end, a as u64); let de = ds + descsz; if de > len { return None; }
-        let next = pad(de, a as u64);
+        let ds = pad(name_end, a as u64)?; let de = ds.checked_add(descsz)?; if de > len { return None; }
+        let next = pad(de, a as u64)?;
         let name = &d[o + 12..name_end as usize];
         if name == b"GNU\0" && ty == 1 && descsz < 16 { return None; }
         Some((next, ty, (o + 12, name_end as usize), (ds as usize, de as usize)))
